@@ -81,6 +81,8 @@ enum Ev {
 
 struct Recorder {
     events: Arc<Mutex<Vec<Ev>>>,
+    /// a message `park` makes the handler wait here until the script says `open`: everything sent meanwhile queues up
+    gate: Arc<tokio::sync::Semaphore>,
 }
 
 impl Process for Recorder {
@@ -88,7 +90,11 @@ impl Process for Recorder {
         match msg {
             Message::Regular { body, .. } => {
                 let crash = body.is_atom_with_name("crash");
+                let park = body.is_atom_with_name("park");
                 self.events.lock().unwrap().push(Ev::Regular(body));
+                if park && let Ok(p) = self.gate.acquire().await {
+                    p.forget();
+                }
                 if crash {
                     return Err(edp_node::Error::MailboxClosed);
                 }
@@ -231,6 +237,7 @@ async fn run_script(connect: bool, early: Vec<u8>, steps: Vec<String>) -> String
     }
     let mut pids: Vec<ExternalPid> = Vec::new();
     let mut logs: Vec<Arc<Mutex<Vec<Ev>>>> = Vec::new();
+    let mut gates: Vec<Arc<tokio::sync::Semaphore>> = Vec::new();
     let mut refs: Vec<ExternalReference> = Vec::new();
     type Call = tokio::task::JoinHandle<std::result::Result<OwnedTerm, String>>;
     let mut calls: Vec<Call> = Vec::new();
@@ -251,7 +258,9 @@ async fn run_script(connect: bool, early: Vec<u8>, steps: Vec<String>) -> String
         match step_name.as_str() {
             "spawn" => {
                 let log = Arc::new(Mutex::new(Vec::new()));
-                match node.spawn(Recorder { events: log.clone() }).await {
+                let gate = Arc::new(tokio::sync::Semaphore::new(0));
+                gates.push(gate.clone());
+                match node.spawn(Recorder { events: log.clone(), gate }).await {
                     Ok(p) => {
                         out.push(format!("pid {}", pid_text(&p)));
                         pids.push(p);
@@ -278,6 +287,26 @@ async fn run_script(connect: bool, early: Vec<u8>, steps: Vec<String>) -> String
                 let msg = read_term(&mut t);
                 out.push(res(node.send(&p, msg).await));
                 settle().await;
+            }
+            "flood" => {
+                // n copies of one message, back to back (with the receiver parked they fill its mailbox)
+                let p = pid_arg(&mut t, &pids);
+                let n: usize = t.num();
+                let msg = read_term(&mut t);
+                let mut all = true;
+                for _ in 0..n {
+                    all &= node.send(&p, msg.clone()).await.is_ok();
+                }
+                out.push(if all { "ok".to_string() } else { "err".to_string() });
+                settle().await;
+            }
+            "open" => {
+                for g in &gates {
+                    g.add_permits(1 << 20);
+                }
+                tokio::time::sleep(Duration::from_millis(60)).await;
+                settle().await;
+                out.push("-".to_string());
             }
             "sendname" => {
                 let name = Atom::new(String::from_utf8(unhex(t.next())).unwrap());
